@@ -12,15 +12,17 @@ open Um Um.Slots Um.Broker
 
 /-- equal up to the global epoch -/
 def Store.SameButEpoch (s s' : Store) : Prop :=
-  s'.clusters = s.clusters ∧ s'.proxies = s.proxies ∧ s'.failed = s.failed ∧ s'.failures = s.failures
+  s'.clusters = s.clusters ∧ s'.proxies = s.proxies ∧ s'.failed = s.failed ∧ s'.failures = s.failures ∧
+    s'.ordered = s.ordered
 
-theorem Store.SameButEpoch.rfl' (s : Store) : Store.SameButEpoch s s := ⟨rfl, rfl, rfl, rfl⟩
+theorem Store.SameButEpoch.rfl' (s : Store) : Store.SameButEpoch s s := ⟨rfl, rfl, rfl, rfl, rfl⟩
 
-theorem Store.sameButEpoch_bump (s : Store) : Store.SameButEpoch s s.bump := ⟨rfl, rfl, rfl, rfl⟩
+theorem Store.sameButEpoch_bump (s : Store) : Store.SameButEpoch s s.bump := ⟨rfl, rfl, rfl, rfl, rfl⟩
 
 theorem Store.SameButEpoch.trans {a b c : Store} (h1 : Store.SameButEpoch a b) (h2 : Store.SameButEpoch b c) :
     Store.SameButEpoch a c :=
-  ⟨h2.1.trans h1.1, h2.2.1.trans h1.2.1, h2.2.2.1.trans h1.2.2.1, h2.2.2.2.trans h1.2.2.2⟩
+  ⟨h2.1.trans h1.1, h2.2.1.trans h1.2.1, h2.2.2.1.trans h1.2.2.1, h2.2.2.2.1.trans h1.2.2.2.1,
+    h2.2.2.2.2.trans h1.2.2.2.2⟩
 
 @[simp] theorem Store.findCluster_bump (s : Store) (n : String) : s.bump.findCluster n = s.findCluster n := rfl
 
